@@ -545,6 +545,7 @@ func runC01(c *core.Ctx) {
 	runC01AsMask(k)
 	runErrDrop(k, "lang/check")
 	runC01Choose(k)
+	runC02Simplify(k)
 	runC02Facts(k) // a false fact is an unsafe accepted program: the fact discipline is a C01 mechanism too
 
 	// ---------------- tables ----------------
